@@ -885,6 +885,15 @@ def flex_layout(context, box, bottom_space, skip_stack, containing_block, page_i
                     absolute_boxes, fixed_boxes, adjoining_margins=[], discard=discard,
                     max_lines=None)[:2]
                 if new_child is None:
+                    if not page_is_empty and all(
+                            child.is_absolutely_positioned()
+                            for child in box.children):
+                        # No flex item can be laid out after the content of
+                        # the page, lay out the container on the next page.
+                        block.remove_placeholders(
+                            context, box.children, absolute_boxes, fixed_boxes)
+                        context.finish_flex_formatting_context(box)
+                        return None, None, {'break': 'any', 'page': None}, [], False
                     if resume_at:
                         resume_index, = resume_at
                         resume_index -= 1
